@@ -137,13 +137,20 @@ func VfC08Announce() {
 	vf.Assume(recv.Label != l2.Label && recv.Label != l3.Label && l2.Label != l3.Label)
 	inst.peer = peering.VfNewPeering(nil, recv, l2, l3)
 	inst.sw = switchr.VfNewSwitch(inst.peer, id)
+	// the routing table is only consulted for announcements addressed to one router (forwarded towards it)
 	r := &Router{instance: inst}
 	h := NewAnnouncePingHandler(r)
+	dst := m.RouterAddress
+	if vf.Param("UNI") == 1 {
+		dst = vfMycoAddr() // addressed to a single router instead of all routers
+		r.table = m.VfTable(vf.Choose(2), 2, 2)
+		vf.Reach("unicast-announcement")
+	}
 
 	na := vf.Int()
 	vf.Assume(na >= 0 && na <= 200)
 	apx := vf.Bytes(na)
-	f, err := inst.builder.NewFrameV1(origin, m.RouterAddress, frame.RouterHopPingDeprecated, nil, vf.Bytes(8), apx)
+	f, err := inst.builder.NewFrameV1(origin, dst, frame.RouterHopPingDeprecated, nil, vf.Bytes(8), apx)
 	if err != nil {
 		vf.Stop()
 	}
